@@ -29,6 +29,18 @@ Theorem unfixed_reset_refuted :
 Proof. exact unfixed_refuted. Qed.
 Print Assumptions unfixed_reset_refuted.
 
+(* Valet.serviceReps never closes a connection on which a request is still being parsed (its
+   head may already say "not persistent" while its body is on the way); it does close once a
+   non-persistent request is completely parsed, answered and sent.  The code as found closed
+   mid-request. *)
+Theorem no_close_while_request_in_progress :
+  (forall c, v_parsing c = true -> may_close c = false) /\
+  (forall c, v_responder_ended c = true -> v_persisted c = false -> v_parsing c = false ->
+             v_txes_empty c = true -> may_close c = true) /\
+  (exists c, v_parsing c = true /\ may_close_unfixed c = true).
+Proof. exact (conj no_close_mid_request (conj close_when_done unfixed_closes_mid_request)). Qed.
+Print Assumptions no_close_while_request_in_progress.
+
 (* One persistent connection, ALL schedules of enqueue / client send / server service /
    partial byte transfer / client receive steps, ALL applications keeping the WSGI contract.
 
